@@ -17,7 +17,7 @@ pub fn prop() -> Prop {
     Prop {
         id: "C17",
         level: "model_checking",
-        rule: "sessions on a REAL retained (Compiler, VM) pair, every line fed through the real parse -> compile_ast -> run: (1) all sessions of <= 3 lines over a 52-line alphabet (declarations, re-declarations, assignments, expressions over earlier globals, a loop, self-contained function definitions with calls, a block with a local, heap-valued lines, three parse failures, compile failures at every statement position, run-time failures after k completed assignments and inside a nested call); (2) crash points: for every session of <= 2 lines and every line of it, the injected failure after k instructions for EVERY k up to the line's length, followed by probe lines reading every global; (3) breadth-first search to depth d over a 14-line core alphabet with states merged on the fingerprint of compiler + VM + model environment. Oracle: a session model on the reference interpreter (a line that fails before running contributes nothing, a line that fails while running contributes exactly the effects it completed), equality of every line's value/output/error kind; for an injected failure the state afterwards must equal the model after SOME prefix of the line's effects; sessions without failing lines must also agree with eval of the concatenated text. The shadow heap stays on across lines",
+        rule: "sessions on a REAL retained (Compiler, VM) pair, every line fed through the real parse -> compile_ast -> run: (1) all sessions of <= 3 lines over a 52-line alphabet (declarations, re-declarations, assignments, expressions over earlier globals, a loop, self-contained function definitions with calls, a block with a local, heap-valued lines, three parse failures, compile failures at every statement position, run-time failures after k completed assignments and inside a nested call); (2) crash points: for every session of <= 2 lines and every line of it, the injected failure after k instructions for EVERY k up to the line's length, followed by probe lines reading every global; (3) breadth-first search to depth d over a 14-line core alphabet with states merged on the fingerprint of compiler + VM + model environment. (4) long sessions, deviation-bounded: four ordinary ten-line sessions (declarations, re-declarations, blocks, loops, functions, heap values, output), every crash point of every one of their lines with the rest of the session as continuation, and every insertion of ONE or TWO lines from a 16-line deviation set (parse / compile / run-time failures at several statement positions, in blocks, in functions, after output and after completed effects, misplaced stop, re-declaration, empty line) at every position: sessions of up to 12 lines. Oracle: a session model on the reference interpreter (a line that fails before running contributes nothing, a line that fails while running contributes exactly the effects it completed), equality of every line's value/output/error kind; for an injected failure the state afterwards must equal the model after SOME prefix of the line's effects; sessions without failing lines must also agree with eval of the concatenated text. The shadow heap stays on across lines",
         assumptions: &[
             "calls to a function defined by an EARLIER line are outside the property (upstream limitation) and not in the alphabet",
             "results handed back by run() are not released by the harness in session mode (they may alias globals or constants)",
@@ -267,7 +267,8 @@ pub fn run_session(lines: &[String]) -> SessionResult {
     }
     // sessions without failing lines behave like the one-shot evaluation of the concatenation
     if problem.is_none() && !any_unspec && all_ok && !lines.is_empty() {
-        let text = lines.join("\n");
+        // (one statement per line: a line that ends in `}` must not swallow a `(` or `[` opening the next one)
+        let text = lines.iter().filter(|l| !l.trim().is_empty()).map(|l| format!("{l};")).collect::<Vec<_>>().join("\n");
         let fp_before = real.fingerprint();
         let _ = fp_before;
         let one = crate::outcome::run_text(&text, crate::outcome::RunOpts { budget: Some(400_000), ledger: false, trace: false, render: true });
@@ -282,6 +283,9 @@ pub fn run_session(lines: &[String]) -> SessionResult {
             problem = Some(format!("every line of the session succeeded, but eval of the concatenated text gives {}", impl_end_text(&one.end)));
         }
         // run_text reset the hooks: turn the ledger back on is pointless now, the session is over
+    }
+    if std::env::var_os("NLMC_FP").is_some() {
+        println!("FP {:?}\n   real  {}\n   model {}", lines, real.fingerprint(), model.fingerprint());
     }
     let key = hash64(&(real.fingerprint(), model.fingerprint()));
     drop(real);
@@ -361,8 +365,13 @@ fn crash_points(sh: &mut Shard, lines: &[String], j: usize, n: u64) {
                     continue;
                 }
                 if matches!(mo.end, End::Unspec(_) | End::Diverge) {
-                    // reading a variable whose declaration did not run: unspecified, accept
-                    continue;
+                    // reading a variable whose declaration did not run: unspecified, accept. A probe only
+                    // reads; after any other unspecified line the model's state no longer says what later
+                    // lines must see, so the comparison of this candidate prefix ends here.
+                    if PROBES.contains(&all[i].as_str()) {
+                        continue;
+                    }
+                    break;
                 }
                 if let Some(why) = agree(&mo, &obs[i]) {
                     ok = false;
@@ -409,8 +418,137 @@ fn session_case(sh: &mut Shard, family: &str, lines: &[String]) -> Option<Sessio
     Some(r)
 }
 
+/// Ordinary ten-line sessions (declarations, re-declarations, blocks, loops, self-contained functions, heap
+/// values, output) used as the default behaviour around which deviations are enumerated.
+const BASES: &[&[&str]] = &[
+    &[
+        "stel a = 1",
+        "stel b = a + 1",
+        "a = a + b",
+        "stel s = \"x\"",
+        "stel l = [1.5, s]",
+        "functie f(x) { [x, a] } f(b)",
+        "l[0] = string(a); 0",
+        "stel i = 0; zolang i < 3 { i += 1; a += 1 } a",
+        "b = lengte(l) + a",
+        "[a, b, s, l]",
+    ],
+    &[
+        "stel a = 1",
+        "stel a = 2",
+        "{ stel t = a; a = t * 2 } a",
+        "stel c = [a]",
+        "c[0] = c[0] + 1; c",
+        "stel b = als a > 3 { \"groot\" } anders { \"klein\" }",
+        "print(\"{} {}\", a, b)",
+        "functie g(x, y) { stel z = x + y; z * 2 } a = g(a, 1)",
+        "stel a = [b, c]",
+        "lengte(a) + lengte(b)",
+    ],
+    &[
+        "stel n = 0",
+        "stel acc = []",
+        "zolang n < 3 { n += 1; acc = [acc, n] } n",
+        "functie diep(x) { als lengte(x) == 0 { antwoord 0 } 1 + diep(x[0]) } diep(acc)",
+        "stel w = \"héé\"",
+        "w[1] = \"e\"; w",
+        "stel k = 2.5",
+        "k = k * 2.0; k",
+        "n = n + lengte(w)",
+        "[n, k, w, acc]",
+    ],
+    &[
+        "stel p = 10",
+        "functie tel(x) { x + 1 } p = tel(p)",
+        "stel q = [p, [p, \"s\"]]",
+        "q[1] = q; lengte(q)",
+        "stel r = ja",
+        "r = !r; r",
+        "als r { p = 0 } anders { p = p + 1 } p",
+        "stel m = 0; zolang ja { m += 1; als m > 4 { stop } } m",
+        "stel t = \"{} en {}\"; print(t, p, m); t",
+        "[p, r, m]",
+    ],
+];
+
+/// Lines that deviate from the ordinary: failures at parse, compile (at several statement positions, inside
+/// blocks and functions) and run time (after completed effects, inside calls, after output), misplaced
+/// keywords, and re-declarations.
+const DEVIATIONS: &[&str] = &[
+    "(1 +",
+    "zz",
+    "stel d = 1; zz",
+    "stel d = 1; stel e = 2.5; stel g2 = \"t\"; zz",
+    "{ stel d = 1; zz }",
+    "als ja { stel d = \"t\"; zz }",
+    "functie hh() { stel z = 1.5; zz } 1",
+    "stop",
+    "stel d = 1; 1 + ja; stel e = 2",
+    "stel d = [1.5, \"dd\"]; d[5]",
+    "functie h(x) { stel y = [x, \"loc\"]; y + ja } stel d = 7; h(1)",
+    "print(\"voor\"); 1 + ja",
+    "stel d = 0; zolang ja { d += 1; als d > 2 { [1][9] } }",
+    "stel a = 100",
+    "stel nieuw = \"n\"; nieuw",
+    "",
+];
+
+/// Sessions of up to 12 lines: every base session, every crash point of every one of its lines (with the rest
+/// of the session as continuation), and every insertion of one or two deviation lines at every position.
+fn long_sessions(sh: &mut Shard) {
+    for base in BASES {
+        let lines: Vec<String> = base.iter().map(|s| s.to_string()).collect();
+        if let Some(r) = session_case(sh, "long-base", &lines) {
+            if r.problem.is_none() && !r.any_unspec {
+                for (j, st) in r.steps.iter().enumerate() {
+                    if *st > 0 && *st <= 600 {
+                        crash_points(sh, &lines, j, *st);
+                    }
+                }
+            } else if r.any_unspec {
+                sh.machinery(format!("a base session is not defined by the model: {lines:?}"));
+                return;
+            }
+        }
+        let n = lines.len();
+        for p1 in 0..=n {
+            for (d1i, d1) in DEVIATIONS.iter().enumerate() {
+                let mut one = lines.clone();
+                one.insert(p1, d1.to_string());
+                // the crash points of the line right after the deviation
+                if let Some(r) = session_case(sh, "long-1-deviation", &one) {
+                    if p1 < n && r.problem.is_none() && !r.any_unspec {
+                        if let Some(st) = r.steps.get(p1 + 1) {
+                            if *st > 0 && *st <= 600 {
+                                crash_points(sh, &one, p1 + 1, *st);
+                            }
+                        }
+                    }
+                }
+                for p2 in p1..=n {
+                    for (d2i, d2) in DEVIATIONS.iter().enumerate() {
+                        if p2 == p1 && d2i < d1i {
+                            continue;
+                        }
+                        let mut two = one.clone();
+                        two.insert(p2 + 1, d2.to_string());
+                        session_case(sh, "long-2-deviations", &two);
+                    }
+                }
+                if !sh.running() {
+                    return;
+                }
+            }
+        }
+    }
+}
+
 fn run(sh: &mut Shard) {
     let tier = sh.cfg.tier;
+    long_sessions(sh);
+    if !sh.running() {
+        return;
+    }
     let n = LINES.len();
     // (1) all sessions of <= 3 lines (grouped by first line)
     for len in 1..=3usize {
@@ -529,6 +667,9 @@ fn vacuity(m: &Merged) -> Option<String> {
     if m.counters.get("family:all-sessions").copied().unwrap_or(0) < 10_000 {
         return Some("fewer than 10 000 sessions".into());
     }
+    if m.counters.get("family:long-2-deviations").copied().unwrap_or(0) < 10_000 {
+        return Some("fewer than 10 000 long sessions with two deviations".into());
+    }
     if m.counters.get("abort-points").copied().unwrap_or(0) < 5_000 {
         return Some("fewer than 5 000 abort points".into());
     }
@@ -536,4 +677,45 @@ fn vacuity(m: &Merged) -> Option<String> {
         return Some("the session search merged into fewer than 100 states".into());
     }
     None
+}
+
+/// Experiment (not a check): breadth-first search over the line alphabet in `path`, printing the number of
+/// new states per depth; used to design alphabets whose state space closes (`nlmc exp17 <file> <depth>`).
+pub fn exp_bfs(path: &str, depth: usize) {
+    let alphabet: Vec<String> = std::fs::read_to_string(path).unwrap_or_default().lines().filter(|l| !l.trim().is_empty()).map(|l| l.to_string()).collect();
+    let mut seen: HashSet<u64> = HashSet::new();
+    let mut frontier: Vec<Vec<usize>> = vec![vec![]];
+    for d in 1..=depth {
+        let mut next = Vec::new();
+        let mut problems = 0;
+        let mut unspec = 0;
+        for h in &frontier {
+            for li in 0..alphabet.len() {
+                let mut h2 = h.clone();
+                h2.push(li);
+                let lines: Vec<String> = h2.iter().map(|i| alphabet[*i].clone()).collect();
+                let r = run_session(&lines);
+                if let Some(p) = &r.problem {
+                    problems += 1;
+                    if problems <= 3 {
+                        println!("  problem: {lines:?}: {p}");
+                    }
+                    continue;
+                }
+                if r.any_unspec {
+                    unspec += 1;
+                    continue;
+                }
+                if seen.insert(r.key) {
+                    next.push(h2);
+                }
+            }
+        }
+        println!("depth {d}: {} new states ({} total), {problems} problems, {unspec} unspecified", next.len(), seen.len());
+        if next.is_empty() {
+            println!("fixpoint: every session over this alphabet, of any length, reaches one of {} states", seen.len());
+            break;
+        }
+        frontier = next;
+    }
 }
